@@ -12,19 +12,23 @@ from ..engine import Finding, with_timeout, Timeout
 
 ID = 'C10'
 TITLE = 'drange enumerates exactly t0, t0+bump, ... up to t1 for every kind of bump'
-LEAN_FILES = ['Basic', 'Civil', 'DRange', 'DRangeDriver', 'DRangeLemmas', 'C10']
+LEAN_FILES = ['Basic', 'Civil', 'DRange', 'DRangeDriver', 'DRangeLemmas', 'CivilLemmas', 'CivilGreg', 'DRangeMonth', 'DRangeBump', 'C10',
+              # the step is tied to the C09 model of dt_bump and the Gregorian model of C04/C09:
+              'Greg', 'GenTypes', 'Bump', 'PygGen', 'Sweep', 'GregLemmas', 'GregPeriod', 'BumpLemmas', 'MonthLemmas', 'TokenLemmas', 'C09']
+GENERATED = ['PygGen.Ym', 'PygGen.BDay', 'PygGen.Tables']
 RULE = ('distinct (t0, t1, bump) requests on which drange returned a list of at least two instants or raised ValueError '
         'for a bump pointing away from t1; dt_bump self-test lines are not counted')
 TRUSTED = ['correspondence harness (pv.engine, pv.proto) and generators of pv.props.c10',
            'Lean driver parser/printer and period tokenizer (PygModel/Basic.lean, DRangeDriver.lean, DRange.parsePeriod)']
-ASSUMPTIONS = ['dateutil.rrule(freq, interval=k>0, dtstart, until) enumerates dtstart + i*k units while <= until (month-based units: day of month <= 28, time of day kept)',
-               'datetime arithmetic agrees with integer microsecond arithmetic and with the closed-form Gregorian arithmetic of PygModel/Civil.lean (sampled through the bump op)',
-               'endpoints are whole seconds wherever rrule is involved (rrule drops microseconds); zero bumps and days of month > 28 with month-based units are outside the statement']
+ASSUMPTIONS = ['dateutil.rrule(freq, interval=k>0, dtstart, until) enumerates dtstart + i*k units while <= until, from a dtstart without microseconds (drange puts the microseconds of t0 back, fix F14) (month-based units: day of month <= 28, time of day kept)',
+               'datetime arithmetic agrees with integer microsecond arithmetic; CPython datetime ordinal/field arithmetic behaves as PygModel/Greg.lean (PygModel/Civil.lean is PROVED equal to Greg; still sampled through the bump op)',
+               'zero bumps and days of month > 28 with month-based single periods are outside the statement']
 
 D = datetime.datetime
 TD = datetime.timedelta
 DAY = TD(1)
 UNIT_TD = dict(d=TD(1), w=TD(7), h=TD(hours=1), n=TD(minutes=1), s=TD(seconds=1))
+MIXED = ['1m-30d', '1m-4w', '1b-1d', '-1m30d', '1d-1b', '1y-12m', '1q-3m1d', '-1w6d', '2d-1b']
 COMPOUNDS = ['1w1d', '1m1d', '1y1m', '1m-1d', '2d12h', '1h30n', '1q1m', '1b1d', '1m1b', '2b1d', '1y1q1m1w1d', '1d1h1n1s', '3d-1h', '1n30s',
              '1w-1b', '2w1b']
 
@@ -45,7 +49,22 @@ def rand_start(rng, midnight, dom28=False):
     t = D(y, m, d)
     if not midnight:
         t += TD(hours=rng.randrange(0, 24), minutes=rng.choice([0, 0, 15, 30, 59]), seconds=rng.choice([0, 0, 0, 7]))
+        if rng.random() < 0.25:     # microsecond endpoints (rrule drops the microseconds of dtstart: defect F12)
+            t += TD(microseconds=rng.choice([1, 250000, 500000, 999999]))
     return t
+
+
+NOMINAL = dict(s=1, n=60, h=3600, d=86400, b=120960, w=604800, m=2629800, q=7889400, y=31557600)   # seconds, roughly
+
+
+def period_parts(s):
+    parts, cur = [], ''
+    for ch in s:
+        cur += ch
+        if ch.isalpha():
+            parts.append(cur)
+            cur = ''
+    return parts
 
 
 def neg_str(s):
@@ -90,6 +109,8 @@ def rand_spec(rng):
         t0 = rand_start(rng, not intraday)
         steps = rng.choice([0, 1, 2, 3, 10, rng.randrange(1, 300 if u in 'dw' else 600)])
         extra = rng.choice([TD(0), TD(0), UNIT_TD[u] * k / 2 if u != 's' else TD(0), TD(seconds=1)])
+        if steps >= 1 and rng.random() < 0.2:     # t1 a fraction of a second short of / beyond the grid point (F14: the until side)
+            extra = TD(microseconds=rng.choice([-1, -300000, 300000]))
         t1 = t0 + sgn * (steps * k * UNIT_TD[u] + extra)
         s = '%d%s' % (sgn * k, u)
         if rng.random() < 0.15:
@@ -111,6 +132,22 @@ def rand_spec(rng):
         span = rng.choice([0, 0, 1, 2, 3, 6, 7, 13, rng.randrange(1, 60), rng.randrange(60, 1100)])     # 0: t0 == t1, also on a weekend day
         t1 = t0 + sgn * span * DAY
         kind, bump = 'b', '%db' % (sgn * k)
+    elif r < 0.87:    # mixed-sign compound period strings: the step may turn round later on (F15), any units
+        if rng.random() < 0.25:
+            s = rng.choice(MIXED)
+        else:
+            ks = [rng.choice([1, 1, 2, 3, 4, 5, 30]) * sg for sg in rng.sample([1, -1, rng.choice([1, -1])], rng.choice([2, 3]))]
+            if all(k > 0 for k in ks) or all(k < 0 for k in ks):
+                ks[0] = -ks[0]
+            s = ''.join('%d%s' % (k, rng.choice('dwmqyhnsb')) for k in ks)
+        t0 = rand_start(rng, True, dom28=True)
+        span = rng.choice([1, 9, 40, 124, rng.randrange(1, 500)]) * DAY
+        # keep the list short: at most ~1500 steps of the net movement of one bump
+        net = abs(sum(int(p[:-1]) * NOMINAL[p[-1]] for p in period_parts(s)))
+        if net and span > 1500 * net * TD(seconds=1):
+            span = 1500 * net * TD(seconds=1)
+        t1 = t0 + sgn * span + (TD(0) if rng.random() < 0.7 or span < DAY else sgn * TD(hours=5))
+        kind, bump = 'mixed', s
     else:             # compound period strings
         s = rng.choice(COMPOUNDS)
         t0 = rand_start(rng, True, dom28=True)
@@ -126,6 +163,8 @@ def rand_spec(rng):
         t1 = t0
     if t0 == t1:
         kind = 'equal-' + kind.split('-')[0]
+    elif kind == 'mixed':
+        pass
     elif rng.random() < 0.12 and bump is not None:   # point the bump away from t1
         kind = 'away-' + kind.split('-')[0]
         t1 = t0 - (t1 - t0)
@@ -264,6 +303,22 @@ def _laws(rng, tier, ctx):
         if kind.startswith('equal'):
             if res != [t0]:
                 yield bad('t0 == t1 must give [t0], got %s' % (res if isinstance(res, str) else res[:3]))
+            continue
+        if kind == 'mixed':
+            # a tenor of mixed signs: the exact range if every step moves strictly towards t1, ValueError as soon as one does not
+            # (never an empty list, never an unbounded one)
+            up = t1 > t0
+            want, t = [], t0
+            while (t <= t1 if up else t >= t1):
+                want.append(t)
+                nxt = _call(lambda: dt_bump(t, bump))
+                if isinstance(nxt, str) or (nxt <= t if up else nxt >= t):
+                    want = 'raise ValueError'
+                    break
+                t = nxt
+            if res != want:
+                yield bad("mixed-sign tenor '%s': expected %s, got %s" % (bump, want if isinstance(want, str) else 'the %d iterates of dt_bump' % len(want),
+                                                                          res if isinstance(res, str) else 'a list of %d' % len(res)))
             continue
         if kind.startswith('away'):
             if res != 'raise ValueError':
